@@ -101,6 +101,7 @@ func c16(r *core.Report) {
 	c16EarlyExit(r)
 	c16CtxFlow(r)
 	c16IdentChars(r)
+	c16ExternalDef(r)
 
 	units, _ := refUnits(p, "openapi3")
 	r.RunRule("C16.cover", "internalising reaches every reference position: for every path of fields from a unit to a field that can hold a $ref (same enumeration as C02.cover), the unit's deref function hands that field to the add*ToSpec of the position's wrapper (path items: to derefPaths); units without reference positions of their own need no walker", 29, func() {
